@@ -174,6 +174,24 @@ CLAIMED.update({
     ),
 })
 
+CLAIMED.update({
+    'C33': (
+        'proxy symbolic execution (bvx/z3) of register_global_constant/resolve_global_constants with a functionally consistent hash stub',
+        'Bounded symbolic model checking: reference edges among registered constants, the constant named by each reference site (type, code, '
+        'nested sequences, instruction arguments, data) or an unknown hash are solver variables; the expansion is compared with substitution by hash.',
+        'Blake2b/Base58 replaced by an injective functional stub over the forged bytes; leaves symbolic in a small range.',
+        'DESIGN.md C33',
+    ),
+    'C19': (
+        'proxy symbolic execution (bvx/z3) of macro expansions by the real instruction classes on symbolic stacks, against per-macro reference meanings',
+        'Bounded symbolic model checking: every macro name of the listed families (all PAIR trees <= 4/5 leaves, all C[AD]+R paths <= 3/4) is expanded by '
+        'the real expand_macro and executed on a stack of unbounded symbolic ints/bools/options/unions; the resulting stack or failure is compared with the '
+        'reference meaning; UNPxR o PxR = identity; annotation placement of PAIR trees evaluated at type level.',
+        'Bodies of IF*/MAP_*/DIP macros are fixed small code blocks; annotation placement only for PAIR trees.',
+        'DESIGN.md C19',
+    ),
+})
+
 NOT_APPLICABLE = {
     'C18': 'Parser is a PLY regex lexer + LALR tables + json; every input is concrete before the code under test runs, '
            'so a solver has nothing to decide (CrossHair regex model also unsound here). See DESIGN.md section 6.',
